@@ -384,7 +384,7 @@ pub fn gen_heavy_doc(rng: &mut Rng) -> Val {
         return Val::Map(m);
     }
     if rng.chance(1, 2) {
-        let n = *rng.pick(&[4095usize, 4096, 4097, 5000, 65535, 65536, 70000]);
+        let n = *rng.pick(&[4095usize, 4096, 4097, 5000, 32767, 32768, 40000, 65535, 65536, 70000]);
         if rng_bool(rng) {
             Val::Seq((0..n).map(|i| Val::Int((i % 251) as i128)).collect())
         } else {
@@ -433,4 +433,27 @@ pub fn gen_extension_scalar(rng: &mut Rng) -> Val {
         3 => Val::Float(f64::INFINITY.to_bits()),
         _ => Val::Float(f64::NEG_INFINITY.to_bits()),
     }
+}
+
+/// A JSON document (one map with a padding string and a few other entries) whose translation to `to` is
+/// EXACTLY `len` bytes long, if the padding can be chosen that way (found by translating once and
+/// correcting the padding by the difference). Returns the JSON input.
+pub fn exact_output_doc(to: crate::fmts::Fmt, len: usize) -> Option<Vec<u8>> {
+    let build = |n: usize| -> Vec<u8> { format!("{{\"first\": 1, \"pad\": \"{}\", \"last\": [true, \"end\"]}}\n", "p".repeat(n)).into_bytes() };
+    let mut n = len.saturating_sub(64).max(1);
+    for _ in 0..4 {
+        let o = crate::run::run_slice(&build(n), Some(crate::fmts::Fmt::Json), to);
+        if !o.verdict.is_ok() {
+            return None;
+        }
+        if o.out.len() == len {
+            return Some(build(n));
+        }
+        let next = n as i64 + len as i64 - o.out.len() as i64;
+        if next < 1 {
+            return None;
+        }
+        n = next as usize;
+    }
+    None
 }
